@@ -30,7 +30,9 @@ RULE = ('cases = corpus + random handler programs from the grammar out/item/resp
         'instantiated as real callables, lists, iterator objects and file-likes with recording close(), with and '
         'without wsgi.file_wrapper, all 7 verbs, statuses {100,101,102,199,200,204,206,301,304,404,500,999} and '
         'custom reason lines, 0-3 before/after hooks and route hooks that may fail, 404/405/partial-404 routing, '
-        'custom error handlers (constant, body, same-error loop, raising), HTML and JSON error pages, response '
+        'custom error handlers (constant, body, same-error loop, raising), the class of every raised exception from a '
+        'pool of 43 (builtin hierarchy incl. the OSError family, GeneratorExit, KeyboardInterrupt/SystemExit/MemoryError, '
+        'user subclasses of Exception/BaseException/KeyboardInterrupt/MemoryError), HTML and JSON error pages, response '
         'mutations (status, headers incl. charset, cookies); plus status-setter cases; thorough adds an exhaustive '
         'enumeration of a depth-2 alphabet. non-trivial = the program contains an iterable, a file, a response '
         'object, a raise, a failing hook, a custom error handler, or the response may not carry a body; distinct '
@@ -43,8 +45,13 @@ TRUSTED = [
     'catchall = True, no domain_map',
     'section variables: eh (custom error handlers: arbitrary function code -> handler), reason (http.client phrase table)',
     'oracle only (run on the implementation, not compared with the model): error pages with config.debug=True (repr of the '
-    'exception and the traceback text inside the page), KeyboardInterrupt/SystemExit/MemoryError (re-raised by design: the '
-    'oracle requires that no response was started), BaseResponse members the framework never calls (respapi cases)',
+    'exception and the traceback text inside the page), BaseResponse members the framework never calls (respapi cases)',
+    'exception classes: a class is modelled by the names in its __mro__; the class tuples of the three '
+    '`except (...): raise` clauses are read from the source (Gen.passthrough_handle/_cast/_wsgi, pinned to '
+    'KeyboardInterrupt/SystemExit/MemoryError by C03_passthrough_by_class); the oracle states independently that only '
+    'these three (subclasses included) and non-Exception classes may reach the server, and then before any '
+    'start_response; StopIteration raised by next() is "no more items", not a raise; a class deriving from both '
+    'HTTPResponse and one of the three is not modelled',
     'add_hook/remove_hook calls made by hooks or the handler are modelled within one request (after list: effective if made '
     'before its emit starts; an emit iterates a copy); their effect on later requests is not modelled',
     'header names/values and cookie renderings of handler-made responses are wire-safe (C14) and UTF-8 encodable: '
@@ -2183,10 +2190,11 @@ API_SURFACE = [
      'the router) and C01/C02/C11'),
     ('Ombott.handler', 'covered: 404, 404+PARTIAL, 405 (Allow), SIMPLE route hooks, handler call'),
     ('Ombott._handle', 'covered except the undecodable-path branch (outside C03: "decodable path"; covered by C09) and the '
-     're-raise of KeyboardInterrupt/SystemExit/MemoryError (fatal cases, oracle only)'),
+     're-raise of KeyboardInterrupt/SystemExit/MemoryError: covered and modelled (exception-class pool at handler / hook / '
+     'route-hook raise sites)'),
     ('Ombott._cast', 'covered: every branch incl. the 1000-pass guard, file wrappers, peeked iterables, box iterables; the '
-     're-raise of KeyboardInterrupt/... at the first next() by fatal item cases (oracle only)'),
-    ('Ombott.wsgi / __call__', 'covered: suppression, close, catch-all (+HEAD), catchall=False, debug page (oracle only), fatal re-raise'),
+     're-raise of KeyboardInterrupt/... at the first next(): covered and modelled (class pool at item and error-handler raise sites)'),
+    ('Ombott.wsgi / __call__', 'covered: suppression, close, catch-all (+HEAD), catchall=False, debug page (oracle only), re-raise of the three classes / pass of non-Exceptions (modelled: WsPassed)'),
     ('Ombott.run / run() / server_adapters', 'excluded: starts a server, not on the request path'),
     ('abort(code, text)', 'covered by raise_http via=abort'),
     ('redirect(location, code)', 'covered by res kind redirect (303/302 by SERVER_PROTOCOL, explicit code, headers/cookies '
